@@ -26,9 +26,10 @@ def main():
         rc = 1
     for i in ids:
         P = importlib.import_module("props." + i.lower())
-        ok, out = vlib.ocaml_build(P.EXTRACT, P.MLMOD, P.RUNNER)
-        print("ocaml", P.ID, "ok" if ok else "FAILED\n" + out[-2000:])
-        rc |= 0 if ok else 1
+        if getattr(P, "RUNNER", None) is not None:
+            ok, out = vlib.ocaml_build(P.EXTRACT, P.MLMOD, P.RUNNER)
+            print("ocaml", P.ID, "ok" if ok else "FAILED\n" + out[-2000:])
+            rc |= 0 if ok else 1
         for prof in ("debug", "release"):
             ok, out, exe = vlib.harness_build(P.HARNESS_BIN, prof, hooks=getattr(P, "HOOKS", False))
             print("harness", P.ID, prof, "ok" if ok else "FAILED\n" + out[-3000:])
